@@ -581,13 +581,13 @@ def t2(ctx):
             vs = [shape] + (unifurcation_variants(shape) if n <= 4 else [])
             for v in vs:
                 for nsd, usable in (nss[0], extra, nss[5]):
-                    if n >= 5 and nsd is not nss[0] and (quick or nsd is nss[5]):
+                    if n >= 5 and nsd is not nss[0][0] and (quick or nsd is nss[5][0]):
                         continue
                     for rooted in (True, False):
                         spec = {"shape": lst(v), "leaves": list(usable), "rooted": rooted, "lens": None, "ns": nsd}
                         for cond in MRCA_CONDS[:3]:
                             items.append({"spec": spec, "cond": cond})
-                        if n >= 3 and nsd is nss[0]:
+                        if n >= 3 and nsd is nss[0][0]:
                             mv = _moves(spec)
                             if quick and len(mv) > 3:
                                 mv = rng.sample(mv, 3)
